@@ -429,6 +429,11 @@ def check_stats_table(prog, rep, m):
     for n in f.own_nodes():
         if isinstance(n, ast.Assign) and isinstance(n.value, ast.Dict):
             table = n.value
+    if table is None:
+        # the table written where it is used (`{...}[stat]`): a dict literal of name -> reducer
+        for n in f.own_nodes():
+            if isinstance(n, ast.Dict) and n.keys and all(isinstance(k_, ast.Constant) and isinstance(k_.value, str) for k_ in n.keys):
+                table = n
     tname_mod = None
     if table is None:
         # the table may be a module-level constant the function subscripts
@@ -484,7 +489,7 @@ def check_stats_table(prog, rep, m):
                 b_.update({k_.arg: k_.value for k_ in c.keywords if k_.arg})
                 fa = b_.get('func')
                 if len(f.params) >= 2 and norm(b_.get(apf.params[0])) == f.params[0] and norm(b_.get(apf.params[1])) == f.params[1] and \
-                        isinstance(fa, ast.Subscript) and isinstance(fa.value, ast.Name) and fa.value.id == tname and \
+                        isinstance(fa, ast.Subscript) and ((isinstance(fa.value, ast.Name) and fa.value.id == tname) or fa.value is table) and \
                         norm(fa.slice) == lp_.target.id and isinstance(lp_.iter, ast.Name) and lp_.iter.id in f.params:
                     ok = True
     rep.add('F4', f, entry, 'apply(agg, kernel, func=_function_mapping[stats])', f.node.lineno, ok,
